@@ -535,6 +535,17 @@ class Analysis:
             self._typefacts(st, name)
             return
         form = self.lin(rhs, st) if rhs is not None else None
+        if form is None and rhs is not None:
+            # x = a % m  with unsigned operands:  0 <= x <= m - 1  (m >= 1 or the operation is undefined)
+            r = unwrap(rhs)
+            if r.get('k') == 'bin' and r.get('op') == '%':
+                ti = self.prog.type_info(r.get('ty', ''))
+                m = self.lin(r['r'], st)
+                if ti.get('kind') == 'int' and ti.get('signed') is False and m is not None and name not in m.t:
+                    st.forget(name)
+                    st.add_le(0, Lin.term(name))
+                    st.add_le(Lin.term(name), m - 1)
+                    return
         st.assign(name, form)
         if form is None:
             self._typefacts(st, name)
